@@ -420,6 +420,10 @@ func (o OneOfSchema[KeyType]) findUnderlyingType(data any) (KeyType, Object, err
 // declaration.
 func (o OneOfSchema[KeyType]) validateSubtypeDiscriminatorInlineFields() error {
 	for key, typeValue := range o.TypesValue {
+		if ref, isRef := typeValue.(*RefSchema); isRef && !ref.ObjectReady() {
+			// This member's namespace has not been applied yet; it is checked when it is.
+			continue
+		}
 		typeValueDiscriminatorValue, hasDiscriminator := typeValue.Properties()[o.DiscriminatorFieldNameValue]
 		switch {
 		case !o.DiscriminatorInlined && hasDiscriminator:
